@@ -579,3 +579,7 @@ pub(crate) mod test {
         assert_eq!(0, l.estimate_hashed_key(3));
     }
 }
+
+#[cfg(feature = "verif-hooks")]
+#[path = "/verif/kani/hooks_tinylfu.rs"]
+mod verif_hooks;
